@@ -200,7 +200,11 @@ impl Scenario for Chunk {
             p.enumerate = true; // all 2^(n-1) cut sets
             p.stream.cuts.clear();
         } else if p.reader == ReaderKind::Plain && rng.chance(1, 8) {
-            // call history with raw reads through Reader::stream() between events
+            // call history with raw reads through Reader::stream() between events.
+            // The first call is always a read_event: the BOM / encoding sniff happens in
+            // the first read_event on whatever piece is current then, and C02's exception
+            // (first piece >= 4 bytes) is only arranged for the start of the document.
+            p.ops.push(Op::Read);
             for _ in 0..rng.range(2, 14) {
                 p.ops.push(if rng.chance(1, 3) {
                     Op::Raw { n: *rng.pick(&[1u16, 2, 3, 5, 9, 16, 40, 300]), via: rng.below(3) as u8 }
